@@ -282,6 +282,19 @@ impl Population {
                 }
             }
         }
+        // counts crossing 2^16: 70,000 entries in one file (many blocks), in ONE data block (with
+        // an in-block offset table of 8,750 and of 70,000 slots), and — thorough tier — more than
+        // 2^16 data blocks under one index block (whatever counter is narrower than it looks)
+        {
+            let many = EntrySpec::Uniform { n: 70_000, klen: 4, vlen: 1, wide: true };
+            fixed.push(FileSpec::new(FileCfg::layout(None, None, 1), many.clone()));
+            fixed.push(FileSpec::new(FileCfg::layout(Some(1 << 20), None, 0), many.clone()));
+            fixed.push(FileSpec::new(FileCfg::layout(Some(1 << 20), Some(1), 1).with_codec(5, 0), many.clone()));
+            if tier == Tier::Thorough {
+                fixed.push(FileSpec::new(FileCfg::layout(Some(1024), Some(1), 0), EntrySpec::Uniform { n: 66_000, klen: 4, vlen: 1100, wide: true }));
+                fixed.push(FileSpec::new(FileCfg::layout(Some(1024), None, 2), EntrySpec::Uniform { n: 66_000, klen: 4, vlen: 1100, wide: true }));
+            }
+        }
         let mut ends = Vec::new();
         let mut t = 0;
         for g in &groups {
